@@ -115,6 +115,27 @@ pub mod verif_hooks {
             self.0.register_lane(Text::new(name), None)
         }
 
+        /// As `new`, with the agent's aggregate reporter attached.
+        pub fn with_reporting(
+            identity: Uuid,
+            node_uri: &str,
+            aggregate: crate::agent::reporting::UplinkReporter,
+        ) -> Self {
+            WriteState(
+                WriteTaskState::new(identity, Text::new(node_uri), Some(aggregate)),
+                Initialization::new(None, std::time::Duration::from_secs(1)),
+            )
+        }
+
+        /// As `register_lane`, with a reporter attached to the lane.
+        pub fn register_lane_reported(
+            &mut self,
+            name: &str,
+            reporter: crate::agent::reporting::UplinkReporter,
+        ) -> u64 {
+            self.0.register_lane(Text::new(name), Some(reporter))
+        }
+
         async fn message(&mut self, msg: WriteTaskMessage) -> Option<WriteTask> {
             let WriteState(state, init) = self;
             match state.handle_task_message(msg, init, &StoreDisabled).await {
